@@ -470,6 +470,24 @@ fn run(ctx: &mut Ctx) {
             }
             ctx.case(&format!("multiline_soup/{}/{}", ctx.shard, i), |c| check_source(c, "multiline_soup", &s));
         }
+        // "..." literals and string patterns made of escape pieces: lone and paired surrogate escapes, short and
+        // malformed \\u forms, next to 2-, 3- and 4-byte characters (the decoder looks ahead over raw text; added after a
+        // seeded change that sliced it at a fixed byte offset)
+        const ESC_PARTS: &[&str] = &["\\uD83D", "\\uDE00", "\\uD800", "\\uDBFF", "\\uDC00", "\\uDFFF", "\\u00e9", "\\u0041", "\\u12", "\\u", "\\uZZZZ", "\\x41", "\\\\", "\\\"", "\\n", "\\/", "\u{e9}", "\u{20ac}", "\u{65e5}", "\u{1F600}", "a", "u", " ", "D", "8"];
+        let nesc = tier.pickn(600u64, 30_000u64) / ctx.nshards as u64 + 1;
+        for i in 0..nesc {
+            let mut rng = Rng::keyed(seed, "c04-esc", ctx.shard as u64, i);
+            let mut lit = String::new();
+            for _ in 0..(1 + rng.below(6)) {
+                lit.push_str(rng.pick(ESC_PARTS));
+            }
+            let s = match rng.below(3) {
+                0 => format!("fn main() -> unit {{\n    let s = \"{}\";\n    let _ = string_println(s);\n    ()\n}}\n", lit),
+                1 => format!("fn main() -> unit {{\n    let s = \"x\";\n    match s {{\n        \"{}\" => (),\n        _ => (),\n    }}\n}}\n", lit),
+                _ => format!("fn f() -> string {{ \"{}\" + \"{}\" }}\n", lit, lit),
+            };
+            ctx.case(&format!("escape_soup/{}/{}", ctx.shard, i), |c| check_source(c, "escape_soup", &s));
+        }
         let mut k = 0u64;
         for (_name, text) in corpus.iter().filter(|(_, t)| t.contains("\\\\") && t.len() < 4_000) {
             for cut in 0..=text.len() {
